@@ -24,6 +24,8 @@ CLAUSE = CLAUSE + (" (RF-WIDTH) the subpage range the walk iterates over is stor
 CLAUSE = CLAUSE + (" The DFA minimisation compares the acceptance of every pair of successor states it examines, inside the pair loop.")
 CLAUSE = CLAUSE + (' The page walk enters a page at subno_max when walking backward and at subno_min when walking forward.')
 CLAUSE = CLAUSE + (' highlight() stores the forward and the backward resume position on every path; the case of vbi_search_next() for a completed pass forgets the direction.')
+CLAUSE = CLAUSE + (" In front of the walk loop a start subpage beyond the cached subpages of the start page is moved next to the "
+                   "nearest one in the direction of travel (otherwise the first step leaves the start page and it is never searched).")
 NOT_DECIDED = ("that exactly the matching pages are found, in order, each once (values); the regex engine's matching semantics; "
                "haystack construction.")
 
@@ -100,9 +102,75 @@ def run(ctx, run):
     _enter_page_at_far_end(ctx, run, walk)
     _finished_pass_rearms(ctx, run, nxt, sw[0])
     _highlight_sets_both_resume_positions(ctx, run, P.need("highlight", SEARCH))
+    _walk_starts_inside_start_page(ctx, run, walk)
     # the walk visits the subpage range the statistics recorded: the range must not be truncated (shared with C10)
     from . import C10
     C10._subno_range_fits(ctx, run)
+
+
+def _walk_starts_inside_start_page(ctx, run, f):
+    """The hole-skipping loop of the page walk leaves a page as soon as the subpage number is outside the page's
+    subno_min .. subno_max.  The walk starts at a caller-chosen subpage that need not be cached (a backward search created at
+    page P starts at (P-1).3F7E); unless that number is first brought next to the nearest cached subpage in the direction
+    of travel, the very first step leaves the start page, and the stop test ends the pass before the walk comes back to
+    it: the start page is never searched.  Rule: in front of the walk loop, for each direction, the start subpage is
+    stored from the corresponding bound (subno_max walking backward, subno_min forward) - under a test of the start
+    subpage against that bound, or as a clamp of its own value."""
+    run.touch(f)
+    sub = f.params[3]["name"]
+    dirp = f.params[4]["name"]
+    L = loops.natural_loops(f)
+    in_loop = set()
+    for h, body in L.items():
+        in_loop |= body
+    # the range tests that make the walk leave a page
+    n_tests = 0
+    for bid in in_loop:
+        for lab in ("T", "F"):
+            for a in atoms.edge_atoms(f, bid, lab):
+                if a.R is None:
+                    continue
+                for x, y in ((a.L, a.R), (a.R, a.L)):
+                    if x.locals == {sub} and not x.fields and any(m.endswith((".subno_max", ".subno_min")) for m in y.fields):
+                        n_tests += 1
+    run.floor("subpage range tests in the loop of the page walk", n_tests, 2)
+    for want, back in (("subno_max", True), ("subno_min", False)):
+        found = None
+        for bid, i in flow.all_events(f):
+            if bid in in_loop:
+                continue
+            for lhs, var, op, rhs in flow.stores(f, i):
+                if lhs is None or rhs is None or op != "=":
+                    continue
+                l = f.exprs[ex.skip(f, lhs)]
+                if not (l["k"] == "ref" and l.get("name") == sub):
+                    continue
+                o = atoms.Operand(f, rhs)
+                if not any(m.endswith("." + want) for m in o.fields):
+                    continue
+                direction = guarded = False
+                for a in atoms.atoms_at(f, i):
+                    if a.R is None:
+                        continue
+                    if a.R.const == 0 and a.L.locals == {dirp} and not a.L.fields:
+                        if (back and a.rel == "<") or (not back and a.rel in (">", ">=")):
+                            direction = True
+                    for x, y, rel in ((a.L, a.R, a.rel), (a.R, a.L, {"<": ">", ">": "<", "<=": ">=", ">=": "<="}.get(a.rel))):
+                        if x.locals == {sub} and not x.fields and any(m.endswith("." + want) for m in y.fields):
+                            if (back and rel in (">", ">=")) or (not back and rel in ("<", "<=")):
+                                guarded = True
+                if direction and (guarded or sub in o.locals):
+                    found = i
+        key = "RF-DOM:%s:start-inside-page-%s" % (f.name, "backward" if back else "forward")
+        if found is not None:
+            run.holds("RF-DOM", key, "walking %s, a start subpage beyond %s is moved next to it before the first step (`%s`)"
+                      % ("backward" if back else "forward", want, ex.pretty(f, found)[:60]), ex.loc(f, found))
+        else:
+            run.violation("RF-DOM", key, "walking %s, the start subpage reaches the range test of the walk loop as the caller gave "
+                          "it: when it lies %s the page's %s the first step leaves the start page and the pass ends before "
+                          "coming back to it (a backward search created at page P never searches page P-1)"
+                          % ("backward" if back else "forward", "above" if back else "below", want),
+                          "%s:%d" % (f.file, f.line), witness={"function": f.name, "direction": "backward" if back else "forward"})
 
 
 def _highlight_sets_both_resume_positions(ctx, run, f):
